@@ -1,0 +1,179 @@
+//go:build verif
+
+// Contracts checked by /verif/govc (comment-only file; see /verif/DESIGN.md, property C30).
+// The match result of  R % sep  is  [first, [[sep1, r1], [sep2, r2], ...]]  (tpl/README.md): shapeList says so.
+package tpl
+
+//@ pred shapeList(in []any) := len(in) == 2 && istype(in[1], []any) && allocated(in[1].([]any)) &&
+//@        (forall k in 0..len(in[1].([]any)) :: istype(in[1].([]any)[k], []any) && len(in[1].([]any)[k].([]any)) == 2 && allocated(in[1].([]any)[k].([]any)))
+//@ pred shapeOps(in []any) := shapeList(in) &&
+//@        (forall k in 0..len(in[1].([]any)) :: istype(in[1].([]any)[k].([]any)[0], *Token) && in[1].([]any)[k].([]any)[0].(*Token) != nil)
+//@
+//@ func List
+//@   requires shapeList(in)
+//@   assigns nothing
+//@   ensures [length] len(result) == len(in[1].([]any)) + 1 && fresh(result)
+//@   ensures [first] result[0] == in[0]
+//@   ensures [rest-in-order] forall i in 0..len(in[1].([]any)) :: result[i+1] == in[1].([]any)[i].([]any)[1]
+//@ loop List#1
+//@   invariant len(ret) == len(next) + 1 && fresh(ret) && next == in[1].([]any) && ret[0] == in[0]
+//@   invariant forall j in 0..rangeindex+1 :: ret[j+1] == next[j].([]any)[1]
+//@
+//@ # left fold with the separators in order: F(0) = first, F(k) = fn(op_k, F(k-1), r_k)
+//@ ufunc opFold(fn func(op *Token, x, y any) any, first any, next []any, k int) any
+//@ axiom manual opFoldBase := forall fn func(op *Token, x, y any) any :: forall first any :: forall next []any :: opFold(fn, first, next, 0) == first
+//@ axiom manual opFoldStep := forall fn func(op *Token, x, y any) any :: forall first any :: forall next []any :: forall k int ::
+//@        k >= 1 ==> opFold(fn, first, next, k) == applyfn(fn, 0, next[k-1].([]any)[0].(*Token), opFold(fn, first, next, k-1), next[k-1].([]any)[1])
+//@
+//@ func fncall
+//@   option pure_funcs yes
+//@   requires fn != nil
+//@   assigns nothing
+//@   ensures result == applyfn(fn, 0, op, x, y)
+//@
+//@ func BinaryOpNR
+//@   option pure_funcs yes
+//@   requires shapeOps(in) && fn != nil
+//@   assigns nothing
+//@   ensures [left-fold] result == opFold(fn, in[0], in[1].([]any), len(in[1].([]any)))
+//@   use opFoldBase(fn, in[0], in[1].([]any))
+//@ loop BinaryOpNR#1
+//@   invariant ret == opFold(fn, in[0], in[1].([]any), rangeindex+1)
+//@   use opFoldStep(fn, in[0], in[1].([]any), rangeindex+1)
+//@
+//@ # BinaryExprNR: the nodes it creates are recorded in a ghost sequence chain[0..n); node j is (node j-1) op_j r_j,
+//@ # node 0 has the first operand on its left: the left-associative tree, separators in order.
+//@ ghost chain array[int]ast.Expr
+//@ pred chainOK(in []any, j int) := istype(chain[j], *ast.BinaryExpr) && chain[j].(*ast.BinaryExpr) != nil && allocated(chain[j].(*ast.BinaryExpr)) &&
+//@        chain[j].(*ast.BinaryExpr).Op == in[1].([]any)[j].([]any)[0].(*Token).Tok &&
+//@        chain[j].(*ast.BinaryExpr).OpPos == in[1].([]any)[j].([]any)[0].(*Token).Pos &&
+//@        chain[j].(*ast.BinaryExpr).Y == in[1].([]any)[j].([]any)[1] &&
+//@        chain[j].(*ast.BinaryExpr).X == (j == 0 ? in[0] : chain[j-1])
+//@ func BinaryExprNR
+//@   requires shapeOps(in) && istype(in[0], ast.Expr) &&
+//@            (forall k in 0..len(in[1].([]any)) :: istype(in[1].([]any)[k].([]any)[1], ast.Expr))
+//@   assigns chain
+//@   at backedge 1 set chain = store(chain, rangeindex, ret)
+//@   ensures [no-ops] len(in[1].([]any)) == 0 ==> result == in[0]
+//@   ensures [last-node] len(in[1].([]any)) > 0 ==> result == chain[len(in[1].([]any))-1]
+//@   ensures [left-assoc-chain] forall j in 0..len(in[1].([]any)) :: chainOK(in, j)
+//@ loop BinaryExprNR#1
+//@   invariant ret == (rangeindex < 0 ? in[0] : chain[rangeindex])
+//@   invariant forall j in 0..rangeindex+1 :: chainOK(in, j)
+//@
+//@ func UnaryExpr
+//@   requires len(in) >= 2 && istype(in[0], *Token) && in[0].(*Token) != nil && istype(in[1], ast.Expr)
+//@   assigns nothing
+//@   ensures istype(result, *ast.UnaryExpr) && result.(*ast.UnaryExpr).Op == in[0].(*Token).Tok && result.(*ast.UnaryExpr).OpPos == in[0].(*Token).Pos && result.(*ast.UnaryExpr).X == in[1]
+//@
+//@ func Ident
+//@   requires istype(this, *Token) && this.(*Token) != nil
+//@   assigns nothing
+//@   ensures result != nil && result.Name == this.(*Token).Lit && result.NamePos == this.(*Token).Pos
+//@
+//@ func BasicLit
+//@   requires istype(this, *Token) && this.(*Token) != nil
+//@   assigns nothing
+//@   ensures result != nil && result.Value == this.(*Token).Lit && result.ValuePos == this.(*Token).Pos && result.Kind == this.(*Token).Tok
+//@
+//@ # recursive variants: a list element that is itself a []any is a nested R % sep result and is folded first.
+//@ # wfR(in): in has the shape of an operator list, and so has every nested list, to finite depth nestR.
+//@ ufunc wfR(in []any) bool
+//@ ufunc nestR(in []any) int
+//@ axiom manual wfRUnfold := forall in []any :: wfR(in) ==> shapeOps(in) && nestR(in) >= 0 &&
+//@        (istype(in[0], []any) ==> wfR(in[0].([]any)) && nestR(in[0].([]any)) < nestR(in) && allocated(in[0].([]any))) &&
+//@        (forall k in 0..len(in[1].([]any)) :: istype(in[1].([]any)[k].([]any)[1], []any) ==>
+//@             wfR(in[1].([]any)[k].([]any)[1].([]any)) && nestR(in[1].([]any)[k].([]any)[1].([]any)) < nestR(in) && allocated(in[1].([]any)[k].([]any)[1].([]any)))
+//@ ufunc valR(fn func(op *Token, x, y any) any, v any) any
+//@ ufunc foldR(fn func(op *Token, x, y any) any, in []any, k int) any
+//@ axiom manual valRDef := forall fn func(op *Token, x, y any) any :: forall v any ::
+//@        valR(fn, v) == (istype(v, []any) ? foldR(fn, v.([]any), len(v.([]any)[1].([]any))) : v)
+//@ axiom manual foldRBase := forall fn func(op *Token, x, y any) any :: forall in []any :: foldR(fn, in, 0) == valR(fn, in[0])
+//@ axiom manual foldRStep := forall fn func(op *Token, x, y any) any :: forall in []any :: forall k int ::
+//@        k >= 1 ==> foldR(fn, in, k) == applyfn(fn, 0, in[1].([]any)[k-1].([]any)[0].(*Token), foldR(fn, in, k-1), valR(fn, in[1].([]any)[k-1].([]any)[1]))
+//@
+//@ func BinaryOpR
+//@   option pure_funcs yes
+//@   requires wfR(in) && fn != nil
+//@   assigns nothing
+//@   decreases nestR(in)
+//@   ensures [left-fold-nested] result == foldR(fn, in, len(in[1].([]any)))
+//@   use wfRUnfold(in)
+//@   use valRDef(fn, in[0])
+//@   use foldRBase(fn, in)
+//@ loop BinaryOpR#1
+//@   invariant ret == foldR(fn, in, rangeindex+1)
+//@   use valRDef(fn, in[1].([]any)[rangeindex].([]any)[1])
+//@   use foldRStep(fn, in, rangeindex+1)
+//@
+//@ func BinaryOp
+//@   option pure_funcs yes
+//@   requires fn != nil && (recursive ? wfR(in) : shapeOps(in))
+//@   assigns nothing
+//@   ensures [dispatch] result == (recursive ? foldR(fn, in, len(in[1].([]any))) : opFold(fn, in[0], in[1].([]any), len(in[1].([]any))))
+//@
+//@ # expression variants: wfE adds that every leaf is an ast.Expr
+//@ ufunc wfE(in []any) bool
+//@ axiom manual wfEUnfold := forall in []any :: wfE(in) ==> wfR(in) &&
+//@        (istype(in[0], []any) ? wfE(in[0].([]any)) : istype(in[0], ast.Expr)) &&
+//@        (forall k in 0..len(in[1].([]any)) :: (istype(in[1].([]any)[k].([]any)[1], []any) ? wfE(in[1].([]any)[k].([]any)[1].([]any)) : istype(in[1].([]any)[k].([]any)[1], ast.Expr)))
+//@
+//@ func BinaryExprR
+//@   requires wfE(in)
+//@   assigns nothing
+//@   decreases nestR(in)
+//@   ensures [last-op-outermost] len(in[1].([]any)) > 0 ==> istype(result, *ast.BinaryExpr) && fresh(result) &&
+//@            result.(*ast.BinaryExpr).Op == in[1].([]any)[len(in[1].([]any))-1].([]any)[0].(*Token).Tok &&
+//@            result.(*ast.BinaryExpr).OpPos == in[1].([]any)[len(in[1].([]any))-1].([]any)[0].(*Token).Pos
+//@   ensures [leaf] len(in[1].([]any)) == 0 && !istype(in[0], []any) ==> result == in[0]
+//@   ensures [leaf-y] len(in[1].([]any)) > 0 && !istype(in[1].([]any)[len(in[1].([]any))-1].([]any)[1], []any) ==>
+//@            result.(*ast.BinaryExpr).Y == in[1].([]any)[len(in[1].([]any))-1].([]any)[1]
+//@   use wfEUnfold(in)
+//@   use wfRUnfold(in)
+//@ loop BinaryExprR#1
+//@   invariant rangeindex < 0 && !istype(in[0], []any) ==> ret == in[0]
+//@   invariant rangeindex >= 0 ==> istype(ret, *ast.BinaryExpr) && fresh(ret) &&
+//@            ret.(*ast.BinaryExpr).Op == in[1].([]any)[rangeindex].([]any)[0].(*Token).Tok &&
+//@            ret.(*ast.BinaryExpr).OpPos == in[1].([]any)[rangeindex].([]any)[0].(*Token).Pos
+//@   invariant rangeindex >= 0 && !istype(in[1].([]any)[rangeindex].([]any)[1], []any) ==> ret.(*ast.BinaryExpr).Y == in[1].([]any)[rangeindex].([]any)[1]
+//@
+//@ func BinaryExpr
+//@   requires recursive ? wfE(in) : (shapeOps(in) && istype(in[0], ast.Expr) &&
+//@            (forall k in 0..len(in[1].([]any)) :: istype(in[1].([]any)[k].([]any)[1], ast.Expr)))
+//@   assigns chain
+//@   ensures [last-op-outermost] len(in[1].([]any)) > 0 ==> istype(result, *ast.BinaryExpr) &&
+//@            result.(*ast.BinaryExpr).Op == in[1].([]any)[len(in[1].([]any))-1].([]any)[0].(*Token).Tok
+//@   ensures [nr-chain] !recursive ==> (forall j in 0..len(in[1].([]any)) :: chainOK(in, j)) &&
+//@            result == (len(in[1].([]any)) == 0 ? in[0] : chain[len(in[1].([]any))-1])
+//@
+//@ # RangeOp: the calls of fn are recorded in a ghost sequence (visitAt[0..visitN)), in call order
+//@ ghost visitN int
+//@ ghost visitAt array[int]any
+//@ func RangeOp
+//@   option pure_funcs yes
+//@   requires shapeList(in) && fn != nil
+//@   assigns visitN, visitAt
+//@   at call fn#1 set visitAt = store(visitAt, visitN, arg0)
+//@   at call fn#1 set visitN = visitN + 1
+//@   at call fn#2 set visitAt = store(visitAt, visitN, arg0)
+//@   at call fn#2 set visitN = visitN + 1
+//@   ensures [count] visitN == old(visitN) + len(in[1].([]any)) + 1
+//@   ensures [first] visitAt[old(visitN)] == in[0]
+//@   ensures [rest-in-order] forall i in 0..len(in[1].([]any)) :: visitAt[old(visitN)+1+i] == in[1].([]any)[i].([]any)[1]
+//@ loop RangeOp#1
+//@   invariant visitN == old(visitN) + rangeindex + 2 && visitAt[old(visitN)] == in[0]
+//@   invariant forall j in 0..rangeindex+1 :: visitAt[old(visitN)+1+j] == in[1].([]any)[j].([]any)[1]
+//@
+//@ # ListOp is generic: the instance below (verif build only) is the generic body at T = any
+//@ func ListOp[any]
+//@   option pure_funcs yes
+//@   requires shapeList(in) && fn != nil
+//@   assigns nothing
+//@   ensures [length] len(result) == len(in[1].([]any)) + 1 && fresh(result)
+//@   ensures [first] result[0] == applyfn(fn, 0, in[0])
+//@   ensures [rest-in-order] forall i in 0..len(in[1].([]any)) :: result[i+1] == applyfn(fn, 0, in[1].([]any)[i].([]any)[1])
+//@ loop ListOp[any]#1
+//@   invariant len(ret) == len(next) + 1 && fresh(ret) && next == in[1].([]any) && ret[0] == applyfn(fn, 0, in[0])
+//@   invariant forall j in 0..rangeindex+1 :: ret[j+1] == applyfn(fn, 0, next[j].([]any)[1])
+
+var _ = ListOp[any]
